@@ -7,6 +7,13 @@ MSG = "spindle jam 42"
 LONG = "Traceback (most recent call last): " + "tool holder temperature sensor 7 reads 412 K; " * 12 + "ünïcode ∅ end"
 
 
+def carries(line, msg):
+    """The comment line carries the message: its words, in order (delimiters inside the text may have been neutralised)."""
+    import re
+    have = iter(re.findall(r"\w+", line))
+    return all(any(w == h for h in have) for w in re.findall(r"\w+", msg))
+
+
 class C06System(BuilderSystem):
     def __init__(self, label, bounds, power_values, feed=1000, temp=50, tool_no=2):
         self.label = label
@@ -78,9 +85,9 @@ class C06System(BuilderSystem):
                     problems.append((f"{name}-wrong-output", f"{name} emitted {st.last_lines}, expected codes {want}"))
                 elif name == "emergency_halt":
                     msg = op[1][0]
-                    if "\n" not in msg and msg.strip() and msg not in st.last_lines[2]:
+                    if "\n" not in msg and msg.strip() and not carries(st.last_lines[2], msg):
                         problems.append(("emergency-message-missing", f"third line {st.last_lines[2]!r} lacks the message"))
-                    if not st.last_lines[2].lstrip().startswith(";"):
+                    if not st.last_lines[2].lstrip().startswith(self.style):
                         problems.append(("emergency-message-not-comment", f"third line {st.last_lines[2]!r} is not a comment"))
                     if st.last_infos[2]["others"] or st.last_infos[2]["codes"]:
                         problems.append(("emergency-message-not-comment", f"third line {st.last_lines[2]!r} has executable words"))
@@ -144,6 +151,11 @@ def systems(tier):
     if tier == "thorough":
         for _, system, _, _ in out:
             system.probe_all = True
+    for style in ("(", "/*"):
+        # other comment styles: every shutdown line carries a comment
+        system = C06System(f"comments-{style}", [("tool-power", 10, 100)], (100, 10))
+        system.cfg, system.style = {"comment_symbols": style}, style
+        out.append((f"comments-{style}", system, 4 if tier == "quick" else 60, None))
     out.append(("bounds-set-at-run-time", C06LiveBounds("bounds-set-at-run-time", [], (1000, 2500)), 7 if tier == "thorough" else 4, None))
     return out
 
